@@ -17,8 +17,9 @@ RULE = ('random units: seeded rule sets (2..9 rules, shared/splitting prefixes, 
         'space CR LF; every case is resolved through RadiRouter.resolve and through Ombott.__call__. exhaustive units: all rule '
         'sets of size <=3 from a fixed 14-rule universe x all paths of length <=6 over {a,b,/,1,CR} (thorough tier). Non-trivial = at least one '
         'rule matches under S1; distinct = distinct (rule-set text, path, method).')
-REQUIRED = ['selected', 'not_found', 'multi_candidate', 'needed_backtracking', 'strict_cases', 'weak_cases',
-            'converted_int', 'cr_in_path', 'same_pattern_other_method', 'wsgi_calls', 'kwargs_compared',
+PYOPT = {'quick': 1, 'thorough': 1}     # one unit of every kind is also served by an interpreter started with -O (assert statements compiled out)
+REQUIRED = ['units_run_under_python_-O', 'selected', 'not_found', 'multi_candidate', 'needed_backtracking', 'strict_cases', 'weak_cases',
+            'converted_int', 'cr_in_path', 'same_pattern_other_method', 'wsgi_calls', 'requests_below_a_mount_point', 'mount_point_itself_requested(empty PATH_INFO)', 'kwargs_compared',
             'flavour_colon', 'flavour_angle', 'flavour_brace', 'method_405', 'domain_map_requests', 'domain_map_leading_empty_segments']
 EXHAUSTIVE = {'quick': False, 'thorough': False,
               'thorough_note': 'the exh units enumerate completely: rule sets of size<=3 from the 14-rule universe x all paths of length<=6 over {a,b,/,1,CR}'}
@@ -181,7 +182,13 @@ def observe_resolve(b, path, method):
 
 def observe_wsgi(b, path, method):
     del b.calls[:]
-    env = make_environ(method, '/' + path)
+    # a third of the requests reach the application below a mount point: SCRIPT_NAME is not part of the routed path,
+    # and the mount point itself is requested with an empty PATH_INFO (PEP 3333)
+    if len(path) % 3 == 0:
+        env = make_environ(method, '/' + path, script_name='/shop', raw_path=('' if path == '' else None))
+        b.mounted = getattr(b, 'mounted', 0) + 1
+    else:
+        env = make_environ(method, '/' + path)
     r = call_app(b.app, env)
     if r.escaped is not None:
         return ('escaped', repr(r.escaped))
@@ -233,6 +240,10 @@ def check_case(ctx, b, path, method, via, rules_desc):
     obs = observe_resolve(b, '/' + path, method) if via == 'resolve' else observe_wsgi(b, path, method)
     if via == 'wsgi':
         ctx.count('wsgi_calls')
+        if len(path) % 3 == 0:
+            ctx.count('requests_below_a_mount_point')
+            if path == '':
+                ctx.count('mount_point_itself_requested(empty PATH_INFO)')
     ok = True
     if exp['mode'] == 'strict':
         ctx.count('strict_cases')
